@@ -376,8 +376,15 @@ def limits_family():
     # every macro with every shape of a first argument that contains exactly one name but is not an identifier
     # (plus the parenthesised identifier, which is one), with a body that does and does not mention the name
     for mac, body in (("map", "2"), ("map", "x"), ("filter", "true"), ("all", "true"), ("exists", "true"), ("exists", "x == 1"), ("exists_one", "true")):
-        for var in ("(x)", "((x))", "x.y", "x[0]", "-x", "!x", "f(x)", "[x]", "{x: 1}", '{"k": x}', "x ? 1 : 2", "x.f()", "x + x", "x()", "x || true", "x in [1]", ".x", "x.y.z", "vl[0]"):
+        for var in ("(x)", "((x))", "x.y", "x[0]", "-x", "!x", "f(x)", "[x]", "{x: 1}", '{"k": x}', "x ? 1 : 2", "x.f()", "x + x", "x()", "x || true", "x in [1]", ".x", "x.y.z", "vl[0]", "dyn(x)", "(dyn(x))", "dyn((x))", "int(x)"):
             odd.append(f"[1].{mac}({var}, {body})")
+    # identifiers that are legal CEL names but attribute names of Python objects the evaluators use, as macro
+    # variables and as bound / unbound variables; leading-dot (root-scope) calls and names
+    for name in AWKWARD_NAMES:
+        odd += [f"[1, 2].map({name}, {name})", f"[1, 2].filter({name}, {name} > 1)", f"[1].exists({name}, {name} == 1)", f"{name}", f"{name} == 7", f"{name}.x"]
+    odd += ["-0x0u", "-0x0", "-0x1u", "-0u", "- 0u", "-(0u)", "1u + -0u", 'google.protobuf.Struct{a: 1}.b', 'has(google.protobuf.Struct{a: 1}.b)', 'google.protobuf.Struct{a: 1}.b == 1 || true',
+            'google.protobuf.Struct{a: 1}.a']
+    odd += ['.size("abc")', ".string(1)", '.int("1")', ".size([1, 2]) + 1", ".vi", ".vi + 1", ".vm.a", ".nope", ".f(1)", '[1].map(v, .size("ab"))']
     for o in odd:
         out.append(("raw", None, o))
         out.append(("raw", None, f"({o}) == 1 || true"))
@@ -406,7 +413,13 @@ def activations():
     acts = {"empty": {}, "right": {VARS[k]: v for k, v in right.items()}}
     rot = KINDS[1:] + KINDS[:1]
     acts["wrong"] = {VARS[k]: right[k2] for k, k2 in zip(KINDS, rot)}
+    # variables whose names are attribute names of the evaluator's own objects (see AWKWARD_NAMES)
+    # (no dotted names here: a macro variable that is also the head of a dotted binding is C12's known finding)
+    acts["right"].update({"package": ct.IntType(7), "functions": ct.IntType(8), "get": ct.StringType("g")})
+    acts["wrong"].update({"package": ct.StringType("p"), "functions": ct.ListType([]), "get": ct.IntType(1)})
     return acts
 
 
 ACT_NAMES = ["empty", "right", "wrong"]
+AWKWARD_NAMES = ["functions", "package", "get", "clone", "identifiers", "resolve_variable", "resolve_function", "nested_activation", "__class__", "__dict__",
+                 "__init__", "self", "activation", "celpy", "result", "logger", "CEL", "ex_1", "ex_10"]
